@@ -120,6 +120,12 @@ class Interp:
             return True
         if isinstance(e, ast.Call) and isinstance(e.func, ast.Name) and e.func.id == 'len' and len(e.args) == 1:
             return len(self.ev(e.args[0]))
+        if isinstance(e, ast.Call) and isinstance(e.func, ast.Name) and e.func.id in ('bool', 'int') and len(e.args) == 1 \
+                and not e.keywords:
+            v = self.ev(e.args[0])
+            return bool(v) if e.func.id == 'bool' else int(v)
+        if isinstance(e, ast.Subscript) and not isinstance(e.slice, ast.Slice):
+            return self.ev(e.value)[self.ev(e.slice)]
         raise AnalysisError('finite evaluation: unsupported expression `%s` in %s' % (src(e)[:60], self.fi.qual))
 
 
